@@ -347,6 +347,8 @@ Definition ufunc2 (g : K -> K -> K) (self : field) (a b : value) : res field :=
   let N := length (farr self) in
   let nva := match a with VF x => fnv x | VC c => const_nv self c end in
   let nvb := match b with VF x => fnv x | VC c => const_nv self c end in
+  let supported := fun v => match v with VC (CVec false _) => false | _ => true end in
+  if negb (supported a && supported b) then Err NotImplE else   (* tuples / lists are not ufunc operands *)
   do _ <- all_close self (fields_of a b);
   match bnv nva nvb with
   | None => Err ValueE
